@@ -90,3 +90,31 @@ func VerifC03Decode() {
 	}
 	rt.Reach("compared")
 }
+
+// VerifC03Batch: AddRawRecords with a batch whose last record is refused half-way (its first content applies,
+// its second does not) ends exactly where feeding the same records one at a time ends: nothing of the refused
+// record is visible, in the state or in storage.
+func VerifC03Batch() {
+	vC03Install()
+	v := &vC03Verifier{validate: rt.Choose(2) == 1, acceptorOk: true}
+	root := vC03Root("own")
+	one, oneStore, err := vC03List([]*consensusproto.RawRecordWithId{root}, v, "obs")
+	rt.Assert(err == nil, "build-one-at-a-time")
+	batch, batchStore, err := vC03List([]*consensusproto.RawRecordWithId{root}, v, "obs")
+	rt.Assert(err == nil, "build-batch")
+	good := vC03Record(root.Id, "own", vC03Content(rt.Choose(3), one.aclState))
+	if one.AddRawRecord(good) != nil {
+		return
+	}
+	second := vC03Record(good.Id, []string{"own", "a1"}[rt.Choose(2)], vC03Content(rt.Choose(7), one.aclState), vC03Content(rt.Choose(7), one.aclState))
+	err1 := one.AddRawRecord(second)
+	err2 := batch.AddRawRecords([]*consensusproto.RawRecordWithId{good, second})
+	rt.Assert((err1 == nil) == (err2 == nil), "batch-reports-what-one-at-a-time-reports")
+	rt.Assert(vC03Observe(batch) == vC03Observe(one), "batch-with-a-refused-record-equals-one-at-a-time")
+	rt.Assert(len(batchStore.Storage.(*inMemoryStorage).records) == len(oneStore.Storage.(*inMemoryStorage).records), "batch-stores-what-one-at-a-time-stores")
+	if err1 != nil {
+		rt.Reach("second-refused")
+	} else {
+		rt.Reach("second-accepted")
+	}
+}
